@@ -78,8 +78,14 @@ func (h *verifEcho) Handle(ctx context.Context, req *Message) *Message {
 }
 
 func verifPair() (*Remote, *Remote, *verifEcho, *verifEcho) {
-	ab := make(chan *Message, 8)
-	ba := make(chan *Message, 8)
+	// capacity of the transport in each direction: 8 messages, or (chancap=1) a transport on which a
+	// write only returns once the peer has read it (net.Pipe, a full socket buffer)
+	capacity := 8
+	if verifapi.Param("chancap", 0) == 1 {
+		capacity = 0
+	}
+	ab := make(chan *Message, capacity)
+	ba := make(chan *Message, capacity)
 	ha := &verifEcho{name: "A", handled: map[string]int{}, ctxOK: true}
 	hb := &verifEcho{name: "B", handled: map[string]int{}, ctxOK: true}
 	a := &Remote{Codec: &verifChanCodec{in: ba, out: ab, addr: "a"}, Client: &Client{}, Server: ha}
@@ -114,7 +120,7 @@ func VerifC14Closed() {
 		got int64
 		err error
 	}
-	done := make(chan res, n)
+	done := make(chan res, 2*n)
 	toks := make([]int64, n)
 	for i := 0; i < n; i++ {
 		toks[i] = verifapi.Int64(fmt.Sprint("token", i))
@@ -128,16 +134,38 @@ func VerifC14Closed() {
 			done <- res{i, got, err}
 		}(i, method)
 	}
+	// callers on the other end as well (both sides use the connection at once)
+	nb := 0
+	if verifapi.Param("bothsides", 0) == 1 {
+		nb = n
+	}
+	btoks := make([]int64, nb)
+	for i := 0; i < nb; i++ {
+		btoks[i] = verifapi.Int64(fmt.Sprint("btoken", i))
+		go func(i int) {
+			var got int64
+			err := b.Call(context.Background(), &got, "echo", btoks[i])
+			done <- res{-1 - i, got, err}
+		}(i)
+	}
 	// unsolicited replies (ids nobody waits for) arriving while the calls are in flight
 	junk := verifapi.Param("junk", 0)
 	for j := 0; j < junk; j++ {
 		id, _ := json.Marshal(1000 + j)
 		a.Codec.(*verifChanCodec).in <- &Message{ID: id, Version: Version, Response: &Response{Result: json.RawMessage("0")}}
+		if nb > 0 {
+			// ... and to the other end
+			b.Codec.(*verifChanCodec).in <- &Message{ID: id, Version: Version, Response: &Response{Result: json.RawMessage("0")}}
+		}
 	}
-	for k := 0; k < n; k++ {
+	for k := 0; k < n+nb; k++ {
 		r := <-done
 		verifapi.Assert(r.err == nil, "c14.call-succeeds")
-		verifapi.Assert(r.got == toks[r.i], "c14.call-returns-own-reply")
+		if r.i < 0 {
+			verifapi.Assert(r.got == btoks[-1-r.i], "c14.call-returns-own-reply")
+		} else {
+			verifapi.Assert(r.got == toks[r.i], "c14.call-returns-own-reply")
+		}
 	}
 	verifapi.Quiesce()
 	verifapi.Reach("c14.closed")
@@ -149,11 +177,12 @@ func VerifC14Closed() {
 		verifapi.Assert(cnt == 1, "c14.request-handled-exactly-once")
 	}
 	verifapi.Assert(len(hb.handled) == n, "c14.every-request-handled")
+	verifapi.Assert(nb == 0 || len(ha.handled) >= nb, "c14.every-request-handled")
 	a.mu.Lock()
 	verifapi.Assert(len(a.pending) <= junk, "c14.no-pending-left")
 	a.mu.Unlock()
 	b.mu.Lock()
-	verifapi.Assert(len(b.pending) == 0, "c14.no-pending-left")
+	verifapi.Assert(len(b.pending) == 0 || (nb > 0 && len(b.pending) <= junk), "c14.no-pending-left")
 	b.mu.Unlock()
 }
 
